@@ -46,7 +46,7 @@ def main():
         for fn, target in s["clears"]:
             cleared_by.setdefault(fn, set()).add(target)
         import ast
-        conv = ast.parse(open("/repo/src/measured/conversions.py").read())
+        conv = ast.parse(open(os.path.join(REPO, "src/measured/conversions.py")).read())
         calls = {}
         for fn in conv.body:
             if isinstance(fn, ast.FunctionDef):
